@@ -212,7 +212,11 @@ def run(prog: Program, rep: Report, tier: str = "quick") -> None:
     from . import game
 
     game.add_instances(rep, game.c02_job, [(i, tier) for i in range(n)], "R2.9", 100 * n)
+    game.add_instances(rep, game.cap_job, [(i, tier, "R2.10") for i in range(n)], "R2.10", 5 * n)
+    rep.arbitrate({"R2.1"}, "R2.9", "every sort is undone: result positions")
+    rep.arbitrate({"R2.7"}, "R2.10", "the cap pairs every player with its own prior")
     rep.supersede({"R2.1"}, "R2.9", "every sort is undone: result positions")
+    rep.supersede({"R2.7"}, "R2.10", "the cap pairs every player with its own prior")
     rep.floor("R2.1", 6 * n)
     rep.floor("R2.4", 6 * n)
     rep.floor("R2.5", 6 * n)
